@@ -128,9 +128,19 @@ def seg_deviance(y, n):
     return -2.0 * (y * math.log(lam) - lam * n)
 
 
-def spec_poisson(counts, offset, penalty, min_counts, min_offset):
-    """Brute force over all segmentations.  Returns (best objective or None, scale, seginfo) where
-    seginfo[(i,j)] = (feasible, deviance, y, n)."""
+_TABLE_MEMO = {}
+
+
+def spec_poisson_table(counts, offset, min_counts, min_offset):
+    """Brute force over ALL 2^(n-1) segmentations.  Returns (table, seginfo):
+    seginfo[(i,j)] = (admissible, deviance, y, n) for the segment of observations i..j-1;
+    table[m] = (smallest sum of deviances, largest sum of |deviances|) over the admissible
+    segmentations with m changepoints (the penalty term only depends on m, so the minimum over all
+    segmentations for a given penalty is min_m table[m][0] + penalty*m).  One-entry memo: the
+    callers loop over penalties innermost."""
+    memo_key = (tuple(counts), tuple(offset), min_counts, min_offset)
+    if memo_key in _TABLE_MEMO:
+        return _TABLE_MEMO[memo_key]
     n = len(counts)
     seg = {}
     for i in range(n):
@@ -139,7 +149,7 @@ def spec_poisson(counts, offset, penalty, min_counts, min_offset):
             w = math.fsum(offset[i:j])
             feas = (y >= min_counts) and (w >= min_offset)
             seg[(i, j)] = (feas, seg_deviance(y, w), y, w)
-    best, scale = None, 0.0
+    table = {}
     for mask in range(1 << (n - 1)):
         cuts = [0] + [p + 1 for p in range(n - 1) if mask >> p & 1] + [n]
         tot, sc, ok = 0.0, 0.0, True
@@ -152,11 +162,23 @@ def spec_poisson(counts, offset, penalty, min_counts, min_offset):
             sc += abs(d)
         if not ok:
             continue
-        tot += penalty * (len(cuts) - 2)
-        sc += penalty * (len(cuts) - 2)
-        if best is None or tot < best:
-            best = tot
-        scale = max(scale, sc)
+        m = len(cuts) - 2
+        if m in table:
+            table[m] = (min(table[m][0], tot), max(table[m][1], sc))
+        else:
+            table[m] = (tot, sc)
+    _TABLE_MEMO.clear()
+    _TABLE_MEMO[memo_key] = (table, seg)
+    return table, seg
+
+
+def spec_poisson(counts, offset, penalty, min_counts, min_offset):
+    """(minimum penalised deviance over all admissible segmentations or None, magnitude scale, seginfo)."""
+    table, seg = spec_poisson_table(counts, offset, min_counts, min_offset)
+    if not table:
+        return None, 0.0, seg
+    best = min(d + penalty * m for m, (d, _) in table.items())
+    scale = max(sc + penalty * m for m, (_, sc) in table.items())
     return best, scale, seg
 
 
@@ -323,8 +345,8 @@ def run_poisson(rep, fn, tier, rng, stats):
                 yield cv, (1,) * n
 
     for cv, ov in vectors():
-        for pen in penalties:
-            for minc, mino in minima:
+        for minc, mino in minima:
+            for pen in penalties:
                 check_poisson(rep, fn, cv, ov, pen, minc, mino, f"P|{cv}|{ov}|{pen}|{minc}|{mino}", stats)
 
     # the worked example of DESIGN 6-F9 (always included, lands in the known-pelt clause)
@@ -352,6 +374,27 @@ def run_poisson(rep, fn, tier, rng, stats):
         check_poisson(rep, fn, cnt, off, pen, minc, mino, f"Pr|{r}", stats)
 
 
+def keep_strict_failures_visible(rep):
+    """The protocol keeps only the first 20 failing cases.  Failing cases of known-* clauses are expected
+    and numerous, so at most 2 of them per clause stay in that list (all are still counted in the clause
+    totals); the first failing example of EVERY clause is also copied to the notes."""
+    examples = {}
+    plain_case = rep.case
+
+    def case(clause, ok, key=None, input=None, observed=None, expected=None, nontrivial=True):  # noqa: A002
+        before = len(rep.failures)
+        plain_case(clause, ok, key=key, input=input, observed=observed, expected=expected, nontrivial=nontrivial)
+        if not ok:
+            if clause not in examples:
+                examples[clause] = {"key": str(key), "input": input, "observed": observed, "expected": expected}
+            if (clause.startswith("known-") and len(rep.failures) > before
+                    and sum(1 for f in rep.failures if f["clause"] == clause) > 2):
+                rep.failures.pop()
+
+    rep.case = case
+    return examples, plain_case
+
+
 def run(req, rep):
     tier, seed = req["tier"], req["seed"]
     rng = np.random.default_rng(seed)
@@ -370,10 +413,13 @@ def run(req, rep):
                  "+400 random(len<=10)")
     rep.exhaustive = True  # over the enumerated part; the random real-valued inputs are an extra sample
 
+    examples, plain_case = keep_strict_failures_visible(rep)
     run_fixed(rep, rescaling._fixed_changepoints, tier, rng)
     stats = {}
     run_poisson(rep, rescaling._poisson_changepoints, tier, rng, stats)
+    rep.case = plain_case
     rep.notes.append({"poisson_domain_counts": stats})
+    rep.notes.append({"first_failing_example_per_clause": examples})
     rep.notes.append("known-* clauses isolate DESIGN 6-F9: infeasible candidates pruned for good; log(0) on "
                      "zero-count segments.  The strict optimality clause covers every input on which no "
                      "segment is infeasible and no admissible segment has zero counts.")
